@@ -111,6 +111,49 @@ func runC12(h rmHist) (res *c12result, opens int64, loads int64) {
 			}
 		}
 	}
+	// a failed LoadVersion (pruned or future target) on the live handle must not disturb it: same
+	// LastCommitID, same content, and the next Commit is version latest+1 which a reopen reports too
+	v := int64(len(h.Choice))
+	for u := int64(1); u <= v+1; u++ {
+		if rmRetained(u, v, h.Pruning) {
+			continue
+		}
+		loads++
+		var lerr error
+		func() {
+			defer func() {
+				if r := recover(); r != nil {
+					lerr = fmt.Errorf("panic: %v", r)
+				}
+			}()
+			lerr = s.rs.LoadVersion(u)
+		}()
+		if lerr == nil {
+			return fail("unreadable-version-loads-on-live-handle", "LoadVersion(%d) on the live store succeeded although that version is not retained", u)
+		}
+		if lc := s.rs.LastCommitID(); lc.Version != v || !bytes.Equal(lc.Hash, hashes[v]) {
+			return fail("failed-load-disturbs-live-handle", "after the failed LoadVersion(%d) the live store reports %d/%X, it was at %d/%X", u, lc.Version, lc.Hash, v, hashes[v])
+		}
+	}
+	if v >= 1 {
+		for i := 0; i < h.N; i++ {
+			if got, want := s.content(i), snaps[v][i].iterate(nil, nil, true); !pairsEqual(got, want) {
+				return fail("failed-load-disturbs-live-content", "after failed loads store %s holds [%s], committed [%s]", rmName(i), pairsString(got), pairsString(want))
+			}
+		}
+		cid := s.rs.Commit()
+		if cid.Version != v+1 {
+			return fail("commit-version-after-failed-load", "the commit following failed LoadVersion calls returned version %d, expected %d", cid.Version, v+1)
+		}
+		opens++
+		s5, err := rmOpen(crashdb.FromSnapshot(db.Snapshot(), nil), h.N, h.Pruning, -1)
+		if err != nil {
+			return fail("reopen-after-failed-load", "reopen after failed loads and one more commit fails: %v", err)
+		}
+		if lc := s5.rs.LastCommitID(); lc.Version != v+1 || !bytes.Equal(lc.Hash, cid.Hash) {
+			return fail("reopen-commit-id-after-failed-load", "reopened store reports %d/%X, last commit was %d/%X", lc.Version, lc.Hash, v+1, cid.Hash)
+		}
+	}
 	return nil, opens, loads
 }
 
